@@ -144,7 +144,7 @@ def _engine_run(ch, callers, offsets, R, window, faulty_verbs, fixed=None, noise
             if p:
                 for who in callers:
                     if p[2].startswith(REP[who]):
-                        d = 4.3 if fate.startswith("delay") else 0.0
+                        d = float(fate.split(":")[1]) if fate.startswith("delay") else 0.0
                         arrived.append((t + d + rig.net.latency, who))
     for t in tasks:
         if not t.done():
@@ -233,6 +233,12 @@ def _engine_job(job):
         return {"violations": viol, "obs": obs, "end": obs}
 
     return explore.run_with(prefix, body)
+
+
+def _latency_job(job):
+    who, d = job
+    lib.reset_library()
+    return _engine_run(Chooser(), (who,), (0.0,), 1, 0.0, (who,), fixed=f"delay:{d}")
 
 
 # ------------------------------------------------------------------------------------------
@@ -521,6 +527,18 @@ def run(ctx):
     ctx.log(f"full stack around a mode switch: {fe} executions")
     execs += fe
 
+    # A5: slow replies: every reply latency on a 50 ms grid inside the time-out, one caller (a reply that arrives well
+    # inside the wait is the caller's reply: it must be returned, not reported as a failure)
+    lat = [round(0.05 * i, 2) for i in range(1, 72)]
+    ljobs = [(who, d) for who in ("version", "ping") for d in (lat if not ctx.quick else lat[::2])]
+    for (why, obs), (who, d) in zip(core.pmap(ctx, _latency_job, ljobs, chunksize=4), ljobs):
+        states.add(obs)
+        if why:
+            ctx.violation(f"C06|engine|{why[0]}|slow-reply|{who}", f"{who} answered once after {d:.2f}s: {why[1]}",
+                          {"mode": "latency", "who": who, "delay": d})
+    ctx.set("slow_reply_runs", len(ljobs))
+    execs += len(ljobs)
+
     # A3: configured retry count against total loss
     lib.reset_library()
     why, obs = _engine_run(Chooser(), ("version",), (0.0,), 10, 0.0, ("version",), fixed="drop")
@@ -575,6 +593,10 @@ def replay(ctx, data):
         v, _ = _gate_job((data["api"], data["offset"], data["queued"], data.get("active", False)))
         if v:
             ctx.violation(*v)
+    elif m == "latency":
+        why, _ = _latency_job((data["who"], data["delay"]))
+        if why:
+            ctx.violation(f"C06|engine|{why[0]}|slow-reply|{data['who']}", why[1], data)
     elif m == "R10":
         why, _ = _engine_run(Chooser(), ("version",), (0.0,), 10, 0.0, ("version",), fixed="drop")
         if why:
